@@ -271,7 +271,7 @@ EXC_OF = {
     'notimpl': ('NotImplementedError', 'RuntimeError'), 'illegal-identifier': ('ValueError',),
     'duplicate-sibling': ('ValueError',), 'undeclared': ('AssertionError', 'RuntimeError', 'KeyError', 'TypeError'),
     'index': ('IndexError',), 'joined-twice': ('AssertionError',), 'no-reference': ('AttributeError',),
-    'net-name': ('IndexError', 'StopIteration'),
+    'net-name': ('IndexError', 'StopIteration', 'ValueError'),
 }
 
 
